@@ -1,4 +1,209 @@
-// Kani harnesses mounted inside src/buffered_input.rs (child module: sees private items)
+// Kani harnesses mounted inside src/buffered_input.rs (child module: sees private items).
+//
+// C09 (any chunking of the reader's bytes yields the same characters), C10 (reader faults, early
+// EOF inside a code point and the input-size cap are never swallowed) and the reader part of C01.
+//
+// Environment: a stub `Read` whose chunk sizes, fault position and error kind are symbolic; it
+// obeys the documented `Read` contract (0 < n <= buf.len() unless at end of data; `Interrupted` is
+// not produced - the property excludes it as retryable).
+use super::*;
+use crate::verif_common::stdlite;
+use std::io::ErrorKind;
+
+struct StubReader<const N: usize> {
+    data: [u8; N],
+    pos: usize,
+    /// number of bytes of `data` the reader will serve
+    end: usize,
+    calls: usize,
+    /// index of the read() call that fails (usize::MAX = never)
+    fail_at: usize,
+    fail_kind: u8,
+    failed: bool,
+    /// largest single request seen, total bytes handed out
+    handed: usize,
+}
+
+fn kind_of(k: u8) -> ErrorKind {
+    match k % 6 {
+        0 => ErrorKind::Other,
+        1 => ErrorKind::UnexpectedEof,
+        2 => ErrorKind::BrokenPipe,
+        3 => ErrorKind::InvalidData,
+        4 => ErrorKind::TimedOut,
+        _ => ErrorKind::ConnectionReset,
+    }
+}
+
+impl<const N: usize> Read for StubReader<N> {
+    fn read(&mut self, buf: &mut [u8]) -> io::Result<usize> {
+        if buf.is_empty() {
+            return Ok(0);
+        }
+        let call = self.calls;
+        self.calls += 1;
+        if call == self.fail_at {
+            self.failed = true;
+            return Err(io::Error::from(kind_of(self.fail_kind)));
+        }
+        let remaining = self.end - self.pos;
+        if remaining == 0 {
+            return Ok(0);
+        }
+        let k: usize = kani::any();
+        kani::assume(k >= 1 && k <= remaining && k <= buf.len());
+        let mut i = 0;
+        while i < k {
+            buf[i] = self.data[self.pos + i];
+            i += 1;
+        }
+        self.pos += k;
+        self.handed += k;
+        Ok(k)
+    }
+}
+
+/// Reference decoder of ONE character at the start of `d[..avail]`.
+/// Ok((char, width)) | Err(true) = truncated (needs more bytes than available) | Err(false) = invalid
+fn ref_char(d: &[u8; 4], avail: usize) -> Result<(u32, usize), bool> {
+    let b0 = d[0];
+    let (w, init): (usize, u32) = if b0 < 0x80 {
+        (1, b0 as u32)
+    } else if b0 >= 0xC0 && b0 <= 0xDF {
+        (2, (b0 & 0x1F) as u32)
+    } else if b0 >= 0xE0 && b0 <= 0xEF {
+        (3, (b0 & 0x0F) as u32)
+    } else if b0 >= 0xF0 && b0 <= 0xF7 {
+        (4, (b0 & 0x07) as u32)
+    } else {
+        return Err(false);
+    };
+    if avail < w {
+        return Err(true);
+    }
+    let mut cp = init;
+    let mut j = 1;
+    while j < w {
+        let c = d[j];
+        if c & 0xC0 != 0x80 {
+            return Err(false);
+        }
+        cp = (cp << 6) | (c & 0x3F) as u32;
+        j += 1;
+    }
+    let min = match w {
+        1 => 0,
+        2 => 0x80,
+        3 => 0x800,
+        _ => 0x10000,
+    };
+    if cp < min || cp > 0x10FFFF || (cp >= 0xD800 && cp <= 0xDFFF) {
+        return Err(false);
+    }
+    Ok((cp, w))
+}
+
+fn new_cell() -> Rc<RefCell<Option<Error>>> {
+    Rc::new(RefCell::new(None))
+}
+
+// ------------------------------------------------------------------------------------------
+// ONE inductive step of the character iterator (DESIGN.md R2'): the iterator's only state is the
+// reader position, the running byte count and the shared error cell, so a single `next()` from an
+// arbitrary such state - with the reader's chunk sizes, fault position and error kind symbolic -
+// covers streams of any length, every chunking, every fault position and every cap value.
+//
+// C09: the character delivered is the one-shot decoding of the next bytes, whatever the chunking.
+// C10: a reader error (any kind, at any of this call's reads), an end of data inside a character,
+//      invalid UTF-8 and an exceeded cap all end the input WITH the error cell set; a clean end of
+//      data ends it without; a character is never delivered beyond the cap; at most 4 bytes are
+//      pulled per call and none once the cap is exceeded.
+// ------------------------------------------------------------------------------------------
+fn next_step(with_cap: bool, with_fault: bool) {
+    let data: [u8; 4] = kani::any();
+    let avail: usize = kani::any();
+    kani::assume(avail <= 4);
+    // the reader serves data[..avail]; model "avail" by placing the window at the end of a 4-array
+    let fail_at: usize = if with_fault { kani::any() } else { usize::MAX };
+    if with_fault {
+        kani::assume(fail_at <= 3);
+    }
+    let rd = StubReader::<4> {
+        data,
+        pos: 0,
+        end: avail,
+        calls: 0,
+        fail_at,
+        fail_kind: kani::any(),
+        failed: false,
+        handed: 0,
+    };
+    let cell = new_cell();
+    let cap: usize = kani::any();
+    let total0: usize = kani::any();
+    let mut it = ChunkedChars::new(rd, if with_cap { Some(cap) } else { None }, cell.clone());
+    // invariant of a live iterator: the running total never exceeded the cap so far
+    kani::assume(!with_cap || total0 <= cap);
+    kani::assume(total0 < usize::MAX - 8);
+    it.total_bytes = total0;
+
+    let got = it.next();
+
+    let err = cell.borrow().is_some();
+    let too_large = matches!(&*cell.borrow(), Some(e) if e.kind() == ErrorKind::FileTooLarge);
+    let want = ref_char(&data, avail);
+    let reads = it.reader.calls;
+    assert!(it.reader.handed <= 4, "more than one character's worth of bytes pulled in one step");
+    if it.reader.failed {
+        assert!(got.is_none(), "a character was delivered although the reader failed");
+        assert!(err, "the reader reported an I/O error and the input simply ended: error swallowed");
+    } else if avail == 0 {
+        assert!(got.is_none() && !err, "clean end of data must end the input without error");
+    } else {
+        match want {
+            Ok((cp, w)) => {
+                assert!(it.reader.handed == w, "bytes of the next character consumed or left behind");
+                if with_cap && total0 + w > cap {
+                    assert!(got.is_none() && too_large, "input beyond the cap was not rejected with FileTooLarge");
+                } else {
+                    assert!(!err, "valid input within the cap reported as error");
+                    match got {
+                        Some(c) => assert!(c as u32 == cp, "character differs from the one-shot decoding"),
+                        None => assert!(false, "valid character lost under this chunking"),
+                    }
+                    assert!(it.total_bytes == total0 + w);
+                }
+            }
+            Err(_truncated_or_invalid) => {
+                assert!(got.is_none(), "a character was produced from invalid or truncated UTF-8");
+                assert!(err, "invalid UTF-8 / end of data inside a character ended the input silently");
+            }
+        }
+    }
+    // vacuity witnesses (phrased so that each is satisfiable in every instantiation)
+    kani::cover!(!with_fault || (it.reader.failed && reads >= 2), "fault on a continuation read");
+    kani::cover!(!with_cap || too_large, "cap exceeded");
+    kani::cover!(with_fault || (got.is_some() && it.reader.handed >= 3 && reads >= 3), "multi-byte character re-assembled from several reads");
+    kani::cover!(matches!(want, Err(true)) && !it.reader.failed && avail > 0, "data end inside a multi-byte character");
+    std::mem::forget(it);
+    std::mem::forget(cell);
+}
+
+macro_rules! step_harness {
+    ($name:ident, $cap:expr, $fault:expr) => {
+        #[kani::proof]
+        #[kani::unwind(6)]
+        #[kani::stub(core::str::validations::run_utf8_validation, stdlite::run_utf8_validation)]
+        #[kani::stub(alloc::fmt::format, stdlite::format_stub)]
+        fn $name() {
+            next_step($cap, $fault)
+        }
+    };
+}
+step_harness!(c09_next_step_chunking, false, false);
+step_harness!(c10_next_step_fault, false, true);
+step_harness!(c10_next_step_cap, true, false);
+step_harness!(c10_next_step_cap_fault, true, true);
 
 // concrete-playback slot: bin/check writes the solver counterexample here as a unit test for native replay
 include!("/verif/.build/playback/buffered_input_pb.rs");
